@@ -29,9 +29,11 @@ ASSUMPTIONS = ["the entry point is syntax.ParseFile's sequence New; Advance; Par
 def plan(tier, seed):
     if tier == "quick":
         return [("C07", seed, 3000, []),
-                ("C07short", seed, 0, ["2"])]
+                ("C07short", seed, 0, ["2"]),
+                ("C07leaf", seed, 0, [])]
     return [("C07", seed, 300000, []),
             ("C07short", seed, 0, ["4"]),
+            ("C07leaf", seed, 0, []),
             ("C07cls", seed, 0, [])]
 
 
